@@ -61,6 +61,7 @@ type HOp struct {
 	Scopes    []string `json:"scopes,omitempty"`
 	Granted   []string `json:"granted,omitempty"`
 	Aud       []string `json:"aud,omitempty"`
+	GAud      []string `json:"granted_aud,omitempty"`
 	Subject   string   `json:"subject,omitempty"`
 	Challenge string   `json:"challenge,omitempty"`
 	Method    string   `json:"method,omitempty"`
@@ -314,7 +315,7 @@ func (w *world) exec(op *HOp) HObs {
 		for _, s := range op.Granted {
 			ar.GrantScope(s)
 		}
-		for _, a := range ar.GetRequestedAudience() {
+		for _, a := range op.GAud {
 			ar.GrantAudience(a)
 		}
 		resp, err := w.prov.NewAuthorizeResponse(ctx, ar, &fosite.DefaultSession{Subject: op.Subject})
@@ -401,7 +402,12 @@ func (w *world) exec(op *HOp) HObs {
 	case "advance":
 		time.Sleep(ms(op.Ms))
 	case "setclient":
-		w.applyClient(w.clients[op.Client], op.Client, op.NewClient)
+		// a new client object replaces the registration (as a persistent store would hand out);
+		// requests stored earlier keep pointing at the object they were written with
+		dc := &fosite.DefaultClient{}
+		w.applyClient(dc, op.Client, op.NewClient)
+		w.clients[op.Client] = dc
+		w.store.Clients[dc.ID] = dc
 	default:
 		w.t.Fatalf("unknown op kind %q", op.Kind)
 	}
@@ -506,8 +512,8 @@ func coqHint(h string) string {
 func coqOp(op *HOp) string {
 	switch op.Kind {
 	case "authorize":
-		return fmt.Sprintf("OAuthorize (Build_authz %d %s %s %s %s %s %s %s)", op.Client, Q(op.Redirect), QL(op.Scopes), QL(op.Granted),
-			coqAurls(op.Aud), Q(op.Subject), Q(op.Challenge), Q(op.Method))
+		return fmt.Sprintf("OAuthorize (Build_authz %d %s %s %s %s %s %s %s %s)", op.Client, Q(op.Redirect), QL(op.Scopes), QL(op.Granted),
+			coqAurls(op.Aud), coqAurls(op.GAud), Q(op.Subject), Q(op.Challenge), Q(op.Method))
 	case "redeem":
 		return fmt.Sprintf("ORedeem %s %s %s %s %s %s", coqAuth(op.Auth), coqTok(op.Tok), Q(op.Redirect), Q(op.Verifier), Q(s256(op.Verifier)), QL(op.Smuggled))
 	case "refresh":
